@@ -80,6 +80,10 @@ class RecordingDul(object):
 def bare_association(max_pdu_length, ae=None):
     """A real asceprovider.Association whose dul is a RecordingDul (no thread, no socket)."""
     a = asceprovider.Association.__new__(asceprovider.Association)
+    if ae is None:
+        # the entity's CONFIGURED maximum is not the one in force on this association (that is max_pdu_length below)
+        import types
+        ae = types.SimpleNamespace(max_pdu_length=4 * max(max_pdu_length, 64) + 1000, timeout=5)
     a.ae = ae
     a.dul = RecordingDul()
     a.association_established = True
